@@ -21,7 +21,7 @@ def check(ctx):
     g = ctx.gen
     ctx.lean_gate()
     dt = torch.float64
-    n = 120 if ctx.tier == "quick" else 2000
+    n = 300 if ctx.tier == "quick" else 3000
     reqs, metas = [], []
     rejected = 0
     for it in range(n):
@@ -173,28 +173,108 @@ def check(ctx):
             ctx.disagree("grad_loss_value", case, loss, ml)
         elif len(mg) != len(gflat) or any(abs(a_ - b_) > 1e-9 * scale for a_, b_ in zip(gflat, mg)):
             ctx.disagree("grad", case, gflat, mg)
-    # ---------------- evaluation-only quantities carry no graph
-    from pfhedge.instruments import BrownianStock, EuropeanOption
-    for it in range(8 if ctx.tier == "quick" else 60):
-        stock = BrownianStock(cost=1e-3, dtype=dt)
-        d = EuropeanOption(stock, maturity=3 / 250)
-        model = torch.nn.Linear(2, 1, dtype=dt)
-        hedger = Hedger(model, ["moneyness", "time_to_maturity"])
-        case = {"graph_check": it}
+    # ---------------- evaluation-only quantities carry no graph; ensembles (n_times >= 2) have the gradient of their mean
+    from pfhedge.instruments import BrownianStock, HestonStock, EuropeanOption, LookbackOption
+    from pfhedge.nn.modules.loss import OCE
+
+    def exp_utility(x):
+        return 1 - (-x).exp()
+
+    class Shifted(nn.HedgeLoss):
+        """user criterion wrapping a built-in one (keeps the isoelastic utility on positive wealth)"""
+        def __init__(self, inner, shift):
+            super().__init__()
+            self.inner, self.shift = inner, shift
+
+        def forward(self, input, target=0.0):
+            return self.inner(input + self.shift, target)
+    CRITS = [("erm", lambda: nn.EntropicRiskMeasure(1.0)), ("es", lambda: nn.ExpectedShortfall(0.5)), ("eloss", lambda: nn.EntropicLoss(2.0)),
+             ("qcvar", lambda: nn.QuadraticCVaR(2.0)), ("oce", lambda: OCE(exp_utility)), ("iso", lambda: Shifted(nn.IsoelasticLoss(0.5), 10.0)),
+             ("isolog", lambda: Shifted(nn.IsoelasticLoss(1.0), 10.0))]
+    for it in range(35 if ctx.tier == "quick" else 350):
+        cname, mk_crit = CRITS[it % len(CRITS)]
+        crit = mk_crit()
+        stateful = g.chance(0.5)
+        stock = g.choice([lambda: BrownianStock(cost=g.choice([0.0, 1e-3, 1e-2]), dtype=dt), lambda: HestonStock(cost=1e-3, dtype=dt)])()
+        d = g.choice([EuropeanOption, LookbackOption])(stock, maturity=g.choice([3, 5]) / 250)
+        torch.manual_seed(g.randint(0, 10 ** 6))
+        feats = ["moneyness", "time_to_maturity"] + (["prev_hedge"] if stateful else [])
+        model = torch.nn.Linear(len(feats), 1, dtype=dt)
+        hedger = Hedger(model, feats, criterion=crit)
+        k = g.choice([1, 2, 3])
+        npaths = g.choice([4, 7])
+        case = {"graph_check": it, "criterion": cname, "stateful": stateful, "n_times": k, "n_paths": npaths, "primary": type(stock).__name__,
+                "option": type(d).__name__}
         ctx.case(case, True, tag="graph")
-        p = hedger.price(d, n_paths=4)
+        ctx.stats[f"graph:crit={cname}"] += 1
+        p = hedger.price(d, n_paths=npaths, n_times=k)
         if p.requires_grad or p.grad_fn is not None:
             ctx.fail("price() carries an autograd graph by default", case, key="graph:price")
-        p2 = hedger.price(d, n_paths=4, enable_grad=True)
+        p2 = hedger.price(d, n_paths=npaths, n_times=k, enable_grad=True)
         if not p2.requires_grad:
             ctx.fail("price(enable_grad=True) carries no graph", case, key="graph:price-enable")
-        l0 = hedger.compute_loss(d, n_paths=4, enable_grad=False)
+        l0 = hedger.compute_loss(d, n_paths=npaths, n_times=k, enable_grad=False)
         if l0.requires_grad or l0.grad_fn is not None:
             ctx.fail("compute_loss(enable_grad=False) carries an autograd graph", case, key="graph:compute_loss")
-        l1 = hedger.compute_loss(d, n_paths=4)
+        l1 = hedger.compute_loss(d, n_paths=npaths, n_times=k)
         if not l1.requires_grad:
             ctx.fail("compute_loss() carries no graph although gradients are enabled", case, key="graph:compute_loss-enable")
+        # ---- gradient of the ensemble loss: autograd vs (a) mean of the k single-batch gradients under the same random seed,
+        #      (b) central finite differences of the loss re-evaluated under that seed (same paths)
+        params = list(model.parameters()) + list(crit.parameters())
+        seed = g.randint(0, 10 ** 6)
+
+        def flat(gs):
+            out = []
+            for p_, gr in zip(params, gs):
+                out += ([0.0] * p_.numel() if gr is None else [float(x) for x in gr.reshape(-1).tolist()])
+            return out
+        torch.manual_seed(seed)
+        lk = hedger.compute_loss(d, n_paths=npaths, n_times=k)
+        gk = flat(torch.autograd.grad(lk, params, allow_unused=True))
+        torch.manual_seed(seed)
+        singles = []
+        for _ in range(k):
+            l_ = hedger.compute_loss(d, n_paths=npaths, n_times=1)
+            singles.append(flat(torch.autograd.grad(l_, params, allow_unused=True)))
+        gm = [sum(col) / k for col in zip(*singles)]
+        scale = max(1.0, max(abs(x) for x in gk + gm))
+        ctx.traces += 1
+        ptol = []
+        for p_ in params:      # OCE's own parameter w is float32 whatever the market's dtype
+            ptol += [1e-9 if p_.dtype == torch.float64 else 1e-5] * p_.numel()
+        if any(abs(a_ - b_) > t_ * scale for a_, b_, t_ in zip(gk, gm, ptol)):
+            ctx.fail("the gradient of an ensemble loss (n_times >= 2) is not the mean of the gradients of its members on the same paths", case | {"seed": seed},
+                     key=f"grad:ensemble:{cname}", detail={"autograd": gk, "mean_of_members": gm})
+
+        def loss_at():
+            torch.manual_seed(seed)
+            return float(hedger.compute_loss(d, n_paths=npaths, n_times=k, enable_grad=False))
+        for h in (2.0 ** -20, 2.0 ** -28):
+            fd = []
+            with torch.no_grad():
+                for p_ in params:
+                    fl = p_.view(-1)
+                    for i in range(fl.numel()):
+                        old = float(fl[i])
+                        fl[i] = old + h
+                        lp = loss_at()
+                        fl[i] = old - h
+                        lm = loss_at()
+                        fl[i] = old
+                        fd.append((lp - lm) / (2 * h))
+            scale = max(1.0, max(abs(x) for x in fd), abs(float(lk.detach())))
+            tol = 2e-5 if h > 1e-7 else 1e-3
+            badi = [i for i, (a_, b_) in enumerate(zip(gk, fd)) if abs(a_ - b_) > tol * scale]
+            if not badi:
+                break
+        if badi:
+            ctx.fail("the back-propagated gradient of the hedging loss differs from the derivative of the loss (finite differences on the same simulated paths)",
+                     case | {"seed": seed}, key=f"grad:simulated:{cname}", detail={"autograd": gk, "finite_difference": fd, "params": badi})
     return ctx.finish(
         rule="real Hedger (linear / ReLU-MLP with dyadic weights, 1-2 state-independent features +/- prev_hedge) on injected dyadic markets, costs "
              "{0, 1/64, 1/16, 1/8}, criteria ERM / ES / entropic loss / MSE / mean; cases within 2^-20 of a kink (zero position change with cost, ES tie) "
-             "are rejected and counted; non-trivial = cost > 0 or recurrent input; distinct = sha1 of canonical case")
+             "are rejected and counted; non-trivial = cost > 0 or recurrent input; distinct = sha1 of canonical case. Additionally, on simulated "
+             "Brownian/Heston markets with every built-in criterion (ERM, ES, entropic loss, quadratic CVaR, OCE with its own parameter w, isoelastic "
+             "a=0.5 and a=1 behind a user wrapper) and n_times in {1,2,3}: graph presence/absence of price / compute_loss under enable_grad, the "
+             "ensemble gradient vs the mean of member gradients under the same seed, and vs finite differences on the re-seeded paths")
